@@ -107,3 +107,40 @@ for _n, _d, _m in [(1, None, 2), (2, None, 2), (2, 1, 3)]:
 for _d, _m in [(None, 2), (1, 3)]:
     contract('C17/constraints.not_/in-place-member,dim=%s,maxiter=%d' % (_d or 'any', _m), ['C17', 'C03'],
              K + 'not_._constraint')(lambda h, d=_d, m=_m: _not(h, d, m, inplace=True))
+
+
+def _one_handler(h, which, handler):
+    """only ONE of onexit / onfail given (both are optional): with only `onfail`, a run that gives up still takes the
+    failure path and a successful one returns a vector the members leave unchanged (all / some / for not_: changed by
+    the member); with only `onexit`, success goes through it and a failed run just returns its last vector"""
+    if not h.is_sym():
+        h.unsupported('symbolic only')
+    n, dim, maxiter = (1 if which == 'not_' else 2), 1, 2
+    cs = [h.fn('c%d' % i, ret='same') for i in range(n)]
+    hd = h.fn('HANDLER', ret='same', log='handled')
+    cf = h.call(h.get(K + which), *cs, maxiter=maxiter, **{handler: hd})
+    x = h.vec('x', dim)
+    r = h.call(cf, x)
+    hl = h.log('handled')
+    h.check('the-handler-is-called-at-most-once', 'len(hl) <= 1', hl=hl)
+    fixed = [h.ev('seq_eq(cv, v)', cv=h.call(c, h.snapshot(r)), v=r) for c in cs]
+    env = {'e%d' % i: e for i, e in enumerate(fixed)}
+    ok = {'and_': ' and '.join('e%d' % i for i in range(n)), 'or_': ' or '.join('e%d' % i for i in range(n)), 'not_': 'not e0'}[which]
+    if handler == 'onfail':
+        if len(hl) == 0:
+            # not reported as failed  =>  it is a success: the returned vector satisfies the success clause
+            h.check('a-run-that-does-not-take-the-failure-path-returns-a-vector-satisfying-the-success-clause', ok, **env)
+        h.cover('failure-path-taken', 'n == 1', n=len(hl))
+        h.cover('success', 'n == 0', n=len(hl))
+    else:
+        if len(hl) == 1:
+            v = hl[0][0]
+            fx = [h.ev('seq_eq(cv, v)', cv=h.call(c, h.snapshot(v)), v=v) for c in cs]
+            env2 = {'e%d' % i: e for i, e in enumerate(fx)}
+            h.check('success-path-only-at-a-vector-satisfying-the-success-clause', ok, **env2)
+
+
+for _w in ('and_', 'or_', 'not_'):
+    for _hd in ('onfail', 'onexit'):
+        contract('C17/constraints.%s/only-%s' % (_w, _hd), ['C17'], K + _w + '._constraint', native=False)(
+            lambda h, w=_w, d=_hd: _one_handler(h, w, d))
